@@ -74,6 +74,15 @@ static void *worker(void *arg) {
     return NULL;
 }
 
+static unsigned wd(unsigned dflt) { const char *e = getenv("MT_ALARM"); return (e && atoi(e) > 0) ? (unsigned) atoi(e) : dflt; }
+static int mk_thread(pthread_t *t, void *(*fn)(void *), void *arg) {
+    const char *e = getenv("MT_STACK_KB");
+    if (e && atoi(e) > 0) {
+        pthread_attr_t a; pthread_attr_init(&a); pthread_attr_setstacksize(&a, (size_t) atoi(e) * 1024);
+        int r = pthread_create(t, &a, fn, arg); pthread_attr_destroy(&a); return r;
+    }
+    return pthread_create(t, NULL, fn, arg);
+}
 static void on_alarm(int sig) {
     (void) sig;
     static const char msg[] = "stuck\n";
@@ -196,7 +205,7 @@ int main(int argc, char **argv) {
         int forks = atoi(argv[6]);
         p_setup(0, TR, "-", 0, 0);
         QUIET = 1; if (p_quiet) p_quiet(1);
-        alarm(600);
+        alarm(wd(600));
         pthread_t *th = calloc((size_t) nthreads, sizeof *th);
         for (int i = 0; i < nthreads; i++) pthread_create(&th[i], NULL, loop_worker, (void *)(long)(i + 1));
         usleep(20000);
@@ -237,9 +246,9 @@ int main(int argc, char **argv) {
     int m = !strcmp(mode, "trace") ? 1 : !strcmp(mode, "force") ? 2 : 0;
     MODE_FORCE_ON = (m == 2) || (m == 1);
     p_setup(m, TR, argv[6], 0, 0);
-    alarm(m == 2 ? 15 : 120);
+    alarm(wd(m == 2 ? 15 : 120));
     pthread_t *th = calloc((size_t) nthreads, sizeof *th);
-    for (int i = 0; i < nthreads; i++) pthread_create(&th[i], NULL, worker, (void *)(long) i);
+    for (int i = 0; i < nthreads; i++) mk_thread(&th[i], worker, (void *)(long) i);
     for (int i = 0; i < nthreads; i++) pthread_join(th[i], NULL);
     if (m == 2) trf("finished\t%d\t%d\n", p_pos ? p_pos() : -1, p_mismatch ? p_mismatch() : -1);
     if (m != 1) {
